@@ -11,7 +11,7 @@ from vf.gen import project, projrun
 ID = 'C06'
 LEVEL = 'exploration'
 RULE = ('generated projects with cross-module bases, star imports, single-re-exporter __all__ moves, several roots and '
-        '(separately) import cycles under TYPE_CHECKING / function-local imports; real packages. For small projects every '
+        '(separately) import cycles under TYPE_CHECKING / function-local imports; a directed family of real module-level cycles (the defining module imports its single re-exporter back, at the bottom or between two classes; 72 combinations of re-export, back-import and consumer styles, all orders); real packages. For small projects every '
         'reachable processing order (own __init__ first, then children in any order, roots in any order) is realised by '
         'permuting System.unprocessed_modules before process(); larger ones are sampled. The canonical dump of '
         'System.allobjects (type, kind, docstring, parent, bases, mro, __all__, re-export location) must be the same for '
@@ -21,7 +21,7 @@ RULE = ('generated projects with cross-module bases, star imports, single-re-exp
 ASSUME = ['reachable orders are those produced by sorted(iterdir()) under renaming and by the order of the command-line paths',
           'objects re-exported by more than one module are excluded from the location comparison; message order is not compared']
 DECIDING = {'schedules_run': 800, 'distinct_realised_schedules': 400, 'projects_with_2_schedules': 80, 'renamed_twins': 40, 'objects_compared': 20000,
-            'cycle_projects': 20}
+            'cycle_projects': 20, 'directed_cycle_projects': 60}
 CPU_S = 900
 PER = 5
 
@@ -37,6 +37,9 @@ def cases(tier: str, seed: int) -> List[Dict[str, Any]]:
     nt = 60 if tier == 'quick' else 1000
     for k in range(0, nt, PER):
         out.append({'part': 'T', 'seed': seed, 'k': k, 'n': PER})
+    # directed: real module-level import cycles of the "import at the bottom" idiom around a single-re-exporter move
+    for i in range(len(_DIRECTED_PARAMS)):
+        out.append({'part': 'D', 'idx': i})
     from vf.gen import corpus
     r = core.rng(seed, 'C06', 'corpus')
     cands = [p for p, nf, size in corpus.roots() if nf >= 3 and size < (300_000 if tier == 'quick' else 1_500_000)]
@@ -44,6 +47,29 @@ def cases(tier: str, seed: int) -> List[Dict[str, Any]]:
     for p in cands[:3 if tier == 'quick' else 40]:
         out.append({'part': 'P', 'path': p, 'orders': 4})
     return out
+
+
+import itertools as _it
+_DIRECTED_PARAMS = list(_it.product(['name', 'star', 'name-as'], ['import pkg.api', 'from pkg import api', 'from . import api', 'import pkg.api as _a'],
+                                    ['from-api', 'import-api', 'from-pkg'], ['bottom', 'middle']))
+
+
+def _directed_sources(reexp: str, back: str, consumer: str, where: str) -> Dict[str, str]:
+    """pkg._impl defines X (and a subclass Z of it), pkg.api re-exports X (single re-exporter), pkg._impl imports pkg.api back
+    -- at the bottom or between its two classes --, pkg.user derives from X through the public name only"""
+    exported = 'PubX' if reexp == 'name-as' else 'X'
+    impl = 'class X:\n    """The class."""\n    def meth(self): pass\n'
+    if where == 'middle':
+        impl += back + '\n'
+    impl += 'class Z(X):\n    """Subclass in the defining module."""\n'
+    if where == 'bottom':
+        impl += back + '\n'
+    api = {'name': 'from pkg._impl import X\n__all__ = ["X"]\n', 'star': 'from pkg._impl import *\n__all__ = ["X"]\n',
+           'name-as': 'from ._impl import X as PubX\n__all__ = ["PubX"]\n'}[reexp] + 'class ApiLocal:\n    pass\n'
+    user = {'from-api': f'from pkg.api import {exported}\nclass Y({exported}):\n    pass\n',
+            'import-api': f'import pkg.api\nclass Y(pkg.api.{exported}):\n    pass\n',
+            'from-pkg': f'from pkg import api as A\nclass Y(A.{exported}):\n    pass\nclass Y2(A.ApiLocal):\n    pass\n'}[consumer]
+    return {'pkg/__init__.py': '"""Package."""\n', 'pkg/_impl.py': impl, 'pkg/api.py': api, 'pkg/user.py': user, 'pkg/zlast.py': 'from pkg.user import Y\nclass W(Y):\n    pass\n'}
 
 
 def worker_init() -> None:
@@ -173,7 +199,8 @@ def diff(a: Dict[str, Any], b: Dict[str, Any]) -> Optional[Tuple[str, str]]:
     return None
 
 
-def _run_orders(res: core.Res, roots: List[Any], label: str, max_orders: int, hierarchy_only: bool, witness: Dict[str, Any], r: Any) -> int:
+def _run_orders(res: core.Res, roots: List[Any], label: str, max_orders: int, hierarchy_only: bool, witness: Dict[str, Any], r: Any,
+                attribute: bool = True) -> int:
     from vf.mon import sched
     import os
     _BASE[0] = os.path.dirname(str(roots[0])) + os.sep
@@ -217,6 +244,12 @@ def _run_orders(res: core.Res, roots: List[Any], label: str, max_orders: int, hi
         d1 = hier if cyclic else full
         res.c('objects_compared', len(d1))
         df = diff(d0, d1)
+        if df and not attribute:
+            # directed projects in which none of the known mechanisms has a trigger (nobody imports from the old location of a
+            # moved object after the move, no star import from a module in progress): any disagreement is new
+            res.v(f'C06:directed-cycle:{"hierarchy" if cyclic else "dump"}-differs:{df[0]}', f'{label}: orders {runs[0][0]} and {od} disagree: {df[1]}'[:900],
+                  order_a=runs[0][0], order_b=od, cyclic=cyclic, **witness)
+            continue
         if df:
             # attribution experiment: do the two orders agree once the known stale-import mechanism is repaired?
             from vf.mon import repairs
@@ -277,6 +310,26 @@ def run_case(case: Dict[str, Any]) -> core.Res:
         _run_orders(res, [Path(case['path'])], Path(case['path']).name, case['orders'], False, {'path': case['path']}, r)
         res.c('evaluations')
         res.sample({'package': case['path']})
+        return res
+    if case['part'] == 'D':
+        import shutil
+        import tempfile
+        from pathlib import Path
+        params = _DIRECTED_PARAMS[case['idx']]
+        srcs = _directed_sources(*params)
+        base = Path(tempfile.mkdtemp(prefix='vf06d-'))
+        try:
+            for rel, text in srcs.items():
+                pth = base / rel
+                pth.parent.mkdir(parents=True, exist_ok=True)
+                pth.write_text(text)
+            label = 'directed-cycle:' + '/'.join(params)
+            n = _run_orders(res, [base / 'pkg'], label, 24, True, {'project': label, 'sources': srcs}, core.rng('C06', 'D', case['idx']), attribute=False)
+            res.c('directed_cycle_projects')
+            res.c('evaluations')
+        finally:
+            shutil.rmtree(base, ignore_errors=True)
+        res.sample({'directed': list(params)})
         return res
     if case['part'] == 'G':
         feat = project.Features.order_cycles() if case['cycles'] else project.Features.order()
